@@ -54,7 +54,7 @@ def strings_with_exotic(v):
 
 
 JS_NOT_SEPARATORS = '\x0b\x0c\x1c\x1d\x1e\x85'      # Python splits on these, the browser does not
-_PLACE = {c: chr(0xE000 + i) for i, c in enumerate(JS_NOT_SEPARATORS)}
+_PLACE = {c: chr(0xE000 + i) for i, c in enumerate(JS_NOT_SEPARATORS + '\u2028\u2029')}
 _UNPLACE = {v: k for k, v in _PLACE.items()}
 
 
@@ -82,6 +82,29 @@ def python_with_js_splitting(kind, base, payload):
         return _tr(r[1], _UNPLACE) if r[0] == 'ok' else None
     except Exception:
         return None
+
+
+def neutralised_agrees(kind, meta):
+    """F-splitlines says: the two sides differ *because of* the eight separators. Decide it: replace those characters by
+    private-use characters in the inputs, recompute the payload with Python (diff or merge decisions), and run the real
+    TypeScript and Python on it again: if they agree now, the separators were the cause."""
+    try:
+        if kind == 'patch':
+            a, b = _tr(meta['neutral'][0], _PLACE), _tr(meta['neutral'][1], _PLACE)
+            r, _ = c01.impl_diffnb(a, b)
+            if r[0] != 'ok':
+                return False
+            ip = c01.impl_patchnb(a, r[1])
+            res = run_ts([{'kind': 'patch', 'base': a, 'diff': r[1]}])[0]
+            return ip[0] == 'ok' and res['ok'] and canon(res['value']) == canon(ip[1])
+        b, l, r = (_tr(x, _PLACE) for x in meta['neutral'])
+        m = mergelib.run_merge(b, l, r, mergelib.Args('mergetool'))
+        if m[0] != 'ok':
+            return False
+        res = run_ts([{'kind': 'apply', 'base': b, 'decisions': m[2]}])[0]
+        return res['ok'] and canon(res['value']) == canon(m[1])
+    except Exception:
+        return False
 
 
 def diff_leaves(x, y, path=()):
@@ -139,6 +162,9 @@ def evaluate(ctx, job, meta, res):
         k = 'ts-throws'
         if 'Invalid merge decision action' not in res['error'] and exo:
             k = 'ts-throws-validation'
+            if any(c in json.dumps(base, ensure_ascii=False) for c in EXOTIC) and 'neutral' in meta:
+                exo = neutralised_agrees(kind, meta)
+                ctx.count('F-splitlines: neutralised re-run %s' % ('agrees' if exo else 'still differs'))
         ctx.violation('the TypeScript %s rejects what the server sent: %s' % ('patch' if kind == 'patch' else 'applyDecisions', res['error'][:160]),
                       dict(data, kind=k, error=res['error'], only_exotic_strings=exo and any(c in json.dumps(base, ensure_ascii=False) for c in EXOTIC),
                            only_astral_strings=exo and any(ord(c) > 0xFFFF for c in json.dumps(base, ensure_ascii=False))))
@@ -157,11 +183,10 @@ def evaluate(ctx, job, meta, res):
         only_str = all(isinstance(a, str) and isinstance(b, str) for _, a, b in leaves)
         # the patched string (before or after) contains one of the separators the two languages treat differently
         exo = only_str and all(any(c in (a + b + base_at(p)) for c in EXOTIC) for p, a, b in leaves)
-        if exo and not any(c in json.dumps([got, want, base], ensure_ascii=False) for c in '\u2028\u2029'):
-            # sharper: the browser's result must be what Python computes once those characters are no separators
-            sim = python_with_js_splitting(kind, base, job.get('diff') if kind == 'patch' else job.get('decisions'))
-            exo = sim is not None and canon(sim) == canon(got)
-            ctx.count('F-splitlines simulation %s the browser result' % ('explains' if exo else 'does not explain'))
+        if exo and 'neutral' in meta:
+            # decided, not assumed: with the separators neutralised in the inputs the two sides must agree
+            exo = neutralised_agrees(kind, meta)
+            ctx.count('F-splitlines: neutralised re-run %s' % ('agrees' if exo else 'still differs'))
         astral = only_str and not exo and all(any(ord(c) > 0xFFFF for c in (a + b + base_at(p))) for p, a, b in leaves)
         ctx.violation('the TypeScript %s gives a different document than Python at %s' % ('patch' if kind == 'patch' else 'applyDecisions', [list(p) for p, _, _ in leaves][:3]),
                       dict(data, kind='ts-differs', got=enc(got), only_exotic_strings=exo, only_astral_strings=astral))
@@ -258,7 +283,7 @@ def run(ctx):
         if ip[0] != 'ok':
             continue
         jobs.append({'kind': 'patch', 'base': a, 'diff': r[1]})
-        metas.append({'kind': 'patch', 'want': ip[1], 'scenario': kinds})
+        metas.append({'kind': 'patch', 'want': ip[1], 'scenario': kinds, 'neutral': (a, b)})
         ctx.case('p' + canon(a) + vlib.canon_diff(r[1]), bool(r[1]))
     from checks import c09
     # scenarios whose decisions sit on line paths (character-level diffs inside one line, next to line-level decisions)
@@ -272,7 +297,7 @@ def run(ctx):
         if res[0] != 'ok':
             continue
         jobs.append({'kind': 'apply', 'base': b, 'decisions': res[2]})
-        metas.append({'kind': 'apply', 'want': res[1], 'scenario': kinds})
+        metas.append({'kind': 'apply', 'want': res[1], 'scenario': kinds, 'neutral': (b, l, r)})
         ctx.case('d' + canon(b) + json.dumps(res[2], sort_keys=True), bool(res[2]))
         if res[2] and len(json.dumps(res[2])) < 500:
             ctx.sample({'decisions': res[2]}, limit=2)
